@@ -160,6 +160,26 @@ def t_fixed_point_energy(item):
         es(molecule, P0=Pstar.clone(), dm_prop="XL-BOMD", xl_bomd_params=xp)
         rep = max(rep, float(np.abs(sp.to_np(molecule.force) - F1).max()), float(np.abs(sp.to_np(molecule.Etot) - E).max()))
     out["rep"] = rep
+    # the same object at a NEW geometry: everything published after an extended-Lagrangian evaluation (energy, force,
+    # density, charges) belongs to the new geometry, nothing is left over from the previous call
+    g2 = dict(mol)
+    g2["coords"] = mol["coords"] + 0.05 * np.sin(1.0 + np.arange(mol["coords"].size)).reshape(mol["coords"].shape)
+    m2, es2 = sp.build([g2], p)
+    m2.verbose = False
+    es2(m2)
+    with torch.no_grad():
+        molecule.coordinates.copy_(torch.as_tensor(g2["coords"]).unsqueeze(0))
+    es(molecule, P0=m2.dm.clone(), dm_prop="XL-BOMD", xl_bomd_params=xp)
+    dmn = sp.to_np(molecule.dm)[0]
+    n = len(mol["species"])
+    pop = np.array([np.trace(dmn[4 * a : 4 * a + 4, 4 * a : 4 * a + 4]) for a in range(n)])
+    tore = sp.to_np(molecule.const.tore)[np.asarray(mol["species"])]
+    out["moved"] = {
+        "dE": float(abs(sp.to_np(molecule.Etot)[0] - sp.to_np(m2.Etot)[0])),
+        "dF": float(np.abs(sp.to_np(molecule.force) - sp.to_np(m2.force)).max()),
+        "dq_fresh": float(np.abs(sp.to_np(molecule.q) - sp.to_np(m2.q)).max()),
+        "dq_dm": float(np.abs(sp.to_np(molecule.q)[0, :n] - (tore - pop)).max()),
+    }
     return out
 
 
@@ -365,6 +385,10 @@ def run(chk, tier, seed):
         chk.case(key, outcome=f"{r['dE']:.1e}")
         chk.traces += 1
         # eps = 1e-11; measured on the healthy tree: dE <= 5e-13, dF <= 1.2e-9, dq <= 1.2e-10, dD <= 6e-11 (>= 80x head-room)
+        mv = r["moved"]
+        # measured on the healthy tree: dE <= 5e-13, dF <= 1.2e-9, dq <= 2e-10, q vs diagonal blocks of dm <= 5e-16
+        if mv["dE"] > 1e-10 or mv["dF"] > 1e-7 or mv["dq_fresh"] > 1e-8 or mv["dq_dm"] > 1e-10:
+            chk.violation(dict(desc, clause="moved"), f"{key}: after moving the same object to a new geometry the XL evaluation publishes stale results: dE={mv['dE']:.2e} dF={mv['dF']:.2e} |q - q_fresh|={mv['dq_fresh']:.2e} |q - (Z - tr_A dm)|={mv['dq_dm']:.2e}", replay={"part": "c", "item": list(it)})
         if r["rep"] > 1e-10:
             chk.violation(dict(desc, clause="repeat"), f"{key}: the same XL evaluation repeated on the same molecule differs by {r['rep']:.2e}", replay={"part": "c", "item": list(it)})
         if r["dE"] > 1e-10 or r["dF"] > 1e-7 or r["dq"] > 1e-8 or r["dD"] > 1e-8:
